@@ -423,6 +423,7 @@ let () =
        | ["dls"; v] -> dls_on := (v = "on")
        | ["errnul"; _] | ["track"; _] -> ()
        | "faultspec" :: _ -> ()
+       | "paths" :: _ -> ()
        | ["stall"; _] -> ()
        | t :: "op" :: rest when Stdlib.String.length t = 2 && t.[0] = 't' ->
            let i = Char.code t.[1] - 48 in
